@@ -109,9 +109,9 @@ def run(run):
     sweep.install()
     if run.thorough:
         light = {(1, 1): None, (2, 1): None, (2, 2): None, (3, 1): None, (3, 2): None, (4, 1): None, (4, 2): 300}
-        alg_light = {(1, 1): None, (2, 1): None, (2, 2): None, (3, 1): None, (3, 2): 200, (4, 1): 20, (4, 2): 20}
+        alg_light = {(1, 1): None, (2, 1): None, (2, 2): None, (3, 1): None, (3, 2): 200, (4, 1): 20, (4, 2): 8}
         alg_heavy = {(2, 2): None, (3, 1): None, (3, 2): 40}
-        strata = {"*": ["cycles3", "comp3plus1", ("sparse4", 12)], "ParCons(3,Copeland)": ["two_cycles6", ("cycles43", None)]}
+        strata = {"*": ["cycles3", "comp3plus1"], "ParCons": ["cycles3", "comp3plus1", ("sparse4", 4)], "ParCons(3,Copeland)": ["two_cycles6", ("cycles43", None)]}
         strata_h = {"*": [("comp3plus1", 4)]}
     else:
         light = {(1, 1): None, (2, 1): None, (2, 2): None, (3, 1): None, (3, 2): 200, (4, 1): 20, (4, 2): 12}
